@@ -23,6 +23,7 @@ pub fn params(prop: &str, tier: &str) -> Params {
         "C01" => (4, 6, 40, 900),
         "C05" => (3, 5, 40, 900),
         "C20" => (3, 4, 40, 1200),
+        "C10" => (3, 5, 40, 1200),
         "C06" => (3, 5, 40, 1200),
         "C07" => (4, 6, 40, 900),
         "C08" => (4, 5, 60, 1500),
@@ -58,6 +59,11 @@ pub fn config_for(prop: &str) -> Config {
         "C06" => {
             // zero context + two registered contexts with numerically adjacent ids
             c.preseed = vec![Op::Register { ctx: Ctx::Zero, ttl: "".into() }, Op::ImportRegAdjacent { of: 0 }];
+        }
+        "C10" => {
+            c.settle_lookahead = true;
+            c.light_battery = true;
+            c.check_follower = false;
         }
         "C20" => {
             c.auto_battery = false;
@@ -219,11 +225,12 @@ pub fn menu(prop: &str, tier: &str, depth: usize, e: &Exec) -> Vec<Op> {
             }
             if e.ctxs.len() < 2 {
                 out.push(Op::Register { ctx: Ctx::Zero, ttl: "ephemeral".into() });
+                out.push(Op::Register { ctx: Ctx::Zero, ttl: "head:1".into() });
                 if thorough {
-                    out.push(Op::Register { ctx: Ctx::Zero, ttl: "head:1".into() });
                     out.push(Op::Register { ctx: Ctx::Zero, ttl: time_ttl() });
                 }
             }
+            gc_ops(e, false, &mut out);
             // every context of the alphabet: zero, registered, unregistered-again, never registered
             let mut ctxs = vec![Ctx::Zero, Ctx::Never];
             for k in 0..e.ctxs.len() {
@@ -287,6 +294,9 @@ pub fn menu(prop: &str, tier: &str, depth: usize, e: &Exec) -> Vec<Op> {
             }
             if e.ctxs.is_empty() {
                 out.push(Op::Register { ctx: Ctx::Zero, ttl: "".into() });
+            } else if e.ctxs.len() == 1 {
+                // a registration asked for with a head TTL is still kept forever, and evicts nothing
+                out.push(Op::Register { ctx: Ctx::Zero, ttl: "head:1".into() });
             }
             for r in 0..n {
                 out.push(Op::Remove { rank: r });
@@ -320,6 +330,26 @@ pub fn menu(prop: &str, tier: &str, depth: usize, e: &Exec) -> Vec<Op> {
             }
             gc_ops(e, false, &mut out);
             if thorough && reopen_ok {
+                out.push(Op::Reopen);
+            }
+        }
+        "C10" => {
+            // frames sharing content, removed / evicted / expired one by one
+            let body = |t: &str, ttl: &str, b: &str| Op::Append { topic: t.into(), ctx: Ctx::Zero, ttl: ttl.into(), meta: None, body: Some(b.into()) };
+            for b in ["s1", "s2"] {
+                out.push(body("a", "", b));
+                out.push(body("a", "head:1", b));
+                if thorough || b == "s1" {
+                    out.push(body("ab", "", b));
+                    out.push(body("a", &time_ttl(), b));
+                }
+            }
+            for r in 0..n {
+                out.push(Op::Remove { rank: r });
+            }
+            clock_ops(e, &[0], &mut out);
+            gc_ops(e, false, &mut out);
+            if reopen_ok {
                 out.push(Op::Reopen);
             }
         }
